@@ -194,6 +194,7 @@ def parent_shards(tier, seed):
         for kind in KINDS:
             for variant in ('bare', 'param', 'nested'):
                 out.append({'family': 'parent', 'shape': shape, 'kind': kind, 'variant': variant})
+            out.append({'family': 'parent', 'shape': shape, 'kind': kind, 'variant': 'nested', 'deep_first': True})
     return out
 
 
@@ -212,8 +213,10 @@ def make_parent(sh):
             p = ParentInstr(ded=Ch('pd', [None, 'X']), fields=[PField(('n', 'pa'), attrs=[('map', ('n', 'qa'), None)], tag='pa'), PField(('n', 'pb'), attrs=[('owned_into', ('n', 'qo'), None), ('ref_into', ('n', 'qr'), None)], tag='pb'),
                                                              PField(('n', 'pc'), attrs=[('from', None, '__pc(~, @)'), ('into', ('n', 'qc'), '__pc2(~)')], tag='pc')])
         else:
-            p = ParentInstr(ded=None, fields=[PField(('n', 'pa'), tag='pa'), PField(('n', 'na'), attrs=[('map', ('n', 'ma'), None)], sub_path=[(('n', 'sub'), 'SubT')], tag='na'),
-                                              PField(('n', 'nb'), sub_path=[(('n', 'sub'), 'SubT'), (('n', 'deep'), 'DeepT')], tag='nb')])
+            fa = PField(('n', 'na'), attrs=[('map', ('n', 'ma'), None)], sub_path=[(('n', 'sub'), 'SubT')], tag='na')
+            fb = PField(('n', 'nb'), sub_path=[(('n', 'sub'), 'SubT'), (('n', 'deep'), 'DeepT')], tag='nb')
+            # both listing orders inside the nested level: the direct child of `sub` before / after the deeper entry
+            p = ParentInstr(ded=None, fields=[PField(('n', 'pa'), tag='pa')] + ([fa, fb] if not sh.get('deep_first') else [fb, fa]))
         m0 = Member(nm('par'), ty='ParT', instrs=[p])
         m1 = Member(nm('b'), instrs=[MapInstr('map', member=Ch('m1m', [None, ('n', 'zz')]), tag='e1')])
         return Spec('struct', shape=shape, traits=[t1, t2], members=[m1, m0] if variant == 'bare' else [m0, m1])
